@@ -140,8 +140,10 @@ Definition local_day (t : time) : Z := (inst t + off t * ns_per_sec) / ns_per_da
 Definition day_begin (t : time) : Z := local_day t * ns_per_day - off t * ns_per_sec.
 Definition day_end (t : time) : Z := day_begin t + ns_per_day - 1.
 
-(** [int(a.Sub(b).Hours()/24)] with Duration's saturation *)
+(** [int((a.Unix() - b.Unix()) / 86400)]: whole seconds since the epoch (rounded down),
+    their difference divided by the seconds of a day, rounded towards zero (fix 415af33;
+    before it the distance went through time.Duration and saturated at about 292 years) *)
 Definition max_duration : Z := 9223372036854775807.
+Definition unix_seconds (t : time) : Z := inst t / ns_per_sec.
 Definition days_between (a b : time) : Z :=
-  let d := Z.max (- max_duration - 1) (Z.min max_duration (inst a - inst b)) in
-  Z.quot d ns_per_day.
+  Z.quot (unix_seconds a - unix_seconds b) 86400.
